@@ -1609,6 +1609,11 @@ def finfo(dt):
 
 def isinf(a):
     if isinstance(a, Tensor):
+        ext = getattr(a, "ext", None)
+        if ext is not None:
+            return Tensor("bool", z3.Or(ext == 1, ext == -1), a._shape, bool_)
+        if a.kind in ("sc", "vec"):
+            return Tensor("bool", z3.BoolVal(False), a._shape, bool_)   # symbolic reals are finite
         return _cmp(a, a, lambda x, y: x == y)  # opaque
     return a in (float("inf"), float("-inf"))
 
